@@ -439,6 +439,10 @@ def drive(prop, tier, seed, stage_dir, only_case=None, nworkers=None):
         "workers": nworkers,
         "isolation": isolate,
         "confirm_reruns": len(to_confirm[:cap]) if raw else 0,
+        "slowest_cases": [[c["id"], round(r.get("wall", 0.0), 2)] for c, r in
+                          sorted(zip(cases, results),
+                                 key=lambda t: -t[1].get("wall", 0.0))[:5]],
+        "cpu_s_total": round(sum(r.get("wall", 0.0) for r in results), 1),
     }
     if hasattr(mod, "coverage_extra"):
         try:
